@@ -59,6 +59,8 @@ impl State {
 //@use compile.fns State::dict_key
 //@use compile.fns State::dict_entry
 //@use compile.fns State::dict_pos
+//@use compile.fns State::defvar
+//@use compile.fns State::defvar_anonymous
 //@use compile.fns State::run_immediate
 //@use compile.fns State::build_word
 //@use compile.fns State::next_name
